@@ -131,9 +131,16 @@ async fn a_write(op: &Value) -> Value {
         }
         if usize_list(op, "abandon_chunks").contains(&i) {
             // the caller gives up on this write after one poll (select!/timeout) and moves on to other data
-            let fut = w.write(chunk);
-            futures::pin_mut!(fut);
-            let _ = futures::poll!(fut);
+            {
+                let fut = w.write(chunk);
+                futures::pin_mut!(fut);
+                let _ = futures::poll!(fut);
+            }
+            if flush_after.contains(&i) {
+                if let Err(e) = w.flush().await {
+                    return io_err_json(&e, "flush");
+                }
+            }
             continue;
         }
         if repoll.contains(&i) {
